@@ -76,7 +76,9 @@ Finals(B, new) == {n \in final..B[new].num : TRUE}
 Deleted(P, Q)  == AllEntries(P.idx) \ AllEntries(Q.idx)
 
 MCNext ==
-  \/ \E tx \in TxU : Add(tx, NoHint) /\ act' = [op |-> "add", tx |-> tx]
+  \* (no further submissions for an account the known finding C42-recheck-gap-after-overlap left misaligned:
+  \*  addLocked indexes its list by nonce - stateNonce and corrupts it further; nothing is specified there)
+  \/ \E tx \in TxU : tx.from \notin misaligned /\ Add(tx, NoHint) /\ act' = [op |-> "add", tx |-> tx]
   \/ /\ Cardinality(DOMAIN blocks) <= MaxBlocks
      /\ \E b \in NewBlocks : \E fin \in Finals(blocks @@ (Cardinality(DOMAIN blocks) :> b), Cardinality(DOMAIN blocks)) :
           LET id == Cardinality(DOMAIN blocks) IN
